@@ -132,14 +132,15 @@ def species_plan(rng, shape: str) -> dict[str, list[Species]]:
 
 
 def fill(traj, fs_name: str, rng, plan: dict | None = None, hostile: bool = True,
-         unset_prob: float = 0.4) -> list[str]:
+         unset_prob: float = 0.4, keep_species_fields: bool = False) -> list[str]:
     """Set every field of field set ``fs_name`` on ``traj`` (which must already
     carry it).  Optional fields are set to None with probability unset_prob.
     Returns the list of optional fields left unset."""
     n = len(traj)
     unset = []
     for name, md in ALL[fs_name].fields.items():
-        if not md.required and rng.random() < unset_prob:
+        if not md.required and rng.random() < unset_prob and not (
+                keep_species_fields and Dimension.SPECIES in md.dimensions):
             if md.default is None or rng.random() < 0.5:
                 setattr(traj, name, None)
                 unset.append(name)
